@@ -22,17 +22,21 @@ type zzEvt struct {
 }
 
 type zzExch struct { // one HTTP exchange
-	hdr    http.Header
-	code   int
-	events []zzEvt
-	raw    [][]byte
-	tag    string
+	hdr      http.Header
+	code     int
+	events   []zzEvt
+	raw      [][]byte
+	tag      string
+	onStatus func(code int) // observes the moment the status line is committed
 }
 
 func (w *zzExch) Header() http.Header { return w.hdr }
 func (w *zzExch) Write(b []byte) (int, error) {
 	if w.code == 0 {
 		w.code = 200
+		if w.onStatus != nil {
+			w.onStatus(200)
+		}
 	}
 	w.raw = append(w.raw, b)
 	return len(b), nil
@@ -40,6 +44,9 @@ func (w *zzExch) Write(b []byte) (int, error) {
 func (w *zzExch) WriteHeader(c int) {
 	if w.code == 0 {
 		w.code = c
+		if w.onStatus != nil {
+			w.onStatus(c)
+		}
 	}
 }
 
@@ -484,5 +491,100 @@ func zzC10Retry() {
 		c.Write(wctx, &jsonrpc.Response{ID: jsonrpc2.Int64ID(1), Result: vJSON("result-for-A")})
 	}
 	vAssert(len(wB.events) == 0 && len(wB.raw) <= 1, "C10.response-never-on-another-requests-exchange")
+	vReach("end")
+}
+
+// ---------------------------------------------------------------- C02-H4 / C03-H4: what servePOST does before the session sees anything
+
+// A POST without calls (notifications and responses only): 202 Accepted is committed only after every message has
+// been handed to the session, in order; a closing session answers 404 and never 202.
+func zzC03Accepted() {
+	env := &zzSrvEnv{streamNames: []string{"st1"}}
+	zzSrv8 = env
+	c := zzConnect(nil, false, false)
+	n := 1 + vChoice("extraMessage", 2)
+	mk := func(tag string) jsonrpc.Message {
+		if vBool(tag + "IsResponse") {
+			return &jsonrpc.Response{ID: jsonrpc2.Int64ID(77), Result: vJSON("r")} // the client's answer to a server request
+		}
+		return &jsonrpc.Request{Method: notificationInitialized, Params: vJSON(&InitializedParams{})}
+	}
+	msgs := []jsonrpc.Message{mk("m0")}
+	version := protocolVersion20251125
+	if n == 2 {
+		msgs = append(msgs, mk("m1"))
+		env.isBatch = true
+		version = protocolVersion20250326 // batches exist only there
+	}
+	closing := vBool("sessionClosing")
+	if closing {
+		close(c.done)
+		for i := 0; i < cap(c.incoming); i++ { // and nobody drains the queue any more
+			c.incoming <- &jsonrpc.Request{Method: "notifications/filler"}
+		}
+	}
+	w := zzNewExch("post")
+	seenAtStatus := -1
+	w.onStatus = func(code int) { seenAtStatus = vChanLen(c.incoming) }
+	zzPOST(c, w, version, msgs...)
+	if closing {
+		vAssert(w.code == http.StatusNotFound, "C03.closing-session-not-accepted")
+		vReach("closing")
+	} else {
+		vAssert(w.code == http.StatusAccepted, "C03.no-call-post-accepted")
+		vAssert(seenAtStatus == n, "C03.accepted-only-after-every-message-was-handed-over")
+		for i := 0; i < n; i++ {
+			got := <-c.incoming
+			vAssert(got == msgs[i], "C03.handed-over-in-order")
+		}
+		vReach("accepted")
+	}
+	vAssert(env.hangs == 0 && len(c.streams) == 1, "C03.no-stream-for-a-post-without-calls")
+	vReach("end")
+}
+
+// Invalid requests are refused at the HTTP level and never reach the session.
+func zzC02Prevalidation() {
+	env := &zzSrvEnv{streamNames: []string{"st1"}}
+	zzSrv8 = env
+	c := zzConnect(nil, false, false)
+	modern := vBool("version20260728")
+	version := protocolVersion20251125
+	if modern {
+		version = protocolVersion20260728
+		c = zzConnect(nil, true, false) // the new protocol is served by stateless endpoints
+	}
+	var bad *jsonrpc.Request
+	kind := vChoice("defect", 4)
+	switch kind {
+	case 0: // unknown method, as a call
+		bad = &jsonrpc.Request{ID: jsonrpc2.Int64ID(5), Method: "no/such-method", Params: vJSON(&PingParams{})}
+	case 1: // unknown method, as a notification
+		bad = &jsonrpc.Request{Method: "notifications/no-such", Params: vJSON(&PingParams{})}
+	case 2: // a call method without an id
+		bad = &jsonrpc.Request{Method: "tools/list", Params: vJSON(&ListToolsParams{})}
+	case 3: // a notification method with an id
+		bad = &jsonrpc.Request{ID: jsonrpc2.Int64ID(6), Method: notificationInitialized, Params: vJSON(&InitializedParams{})}
+	}
+	first := vBool("badMessageFirst")
+	good := zzCall(9, "ping")
+	msgs := []jsonrpc.Message{bad}
+	if vBool("inBatch") && !modern {
+		version = protocolVersion20250326
+		env.isBatch = true
+		if first {
+			msgs = []jsonrpc.Message{bad, good}
+		} else {
+			msgs = []jsonrpc.Message{good, bad}
+		}
+	}
+	w := zzNewExch("post")
+	zzPOST(c, w, version, msgs...)
+	vAssert(w.code >= 400 && w.code < 500, "C02.invalid-request-refused-with-4xx")
+	if modern && kind == 0 {
+		vAssert(w.code == http.StatusNotFound, "C02.unknown-method-404-under-2026-07-28")
+	}
+	vAssert(vChanLen(c.incoming) == 0, "C02.invalid-request-never-reaches-the-session")
+	vAssert(env.hangs == 0 && len(c.requestStreams) == 0, "C02.invalid-request-registers-nothing")
 	vReach("end")
 }
